@@ -75,10 +75,19 @@ def features(graph):
     return f
 
 
+EXCLUDING = ('shared_cand', 'switch_in_cand', 'switch_in_rec', 'oneof_in_rec', 'rec_overlap',
+             'rec_outside_reader', 'rec_bad', 'rec_in_cand', 'oneof_in_cand')
+
+
+def excluding_features(graph):
+    f = features(graph)
+    return [k for k in EXCLUDING if f.get(k)]
+
+
 def in_fragment(graph):
     """(bool, reason) — is the program inside the fragment where Sem-based monitors apply"""
     f = features(graph)
-    for k in ('shared_case', 'shared_cand', 'switch_in_cand', 'switch_in_rec', 'oneof_in_rec', 'rec_overlap',
+    for k in ('shared_cand', 'switch_in_cand', 'switch_in_rec', 'oneof_in_rec', 'rec_overlap',
               'rec_outside_reader', 'rec_bad', 'rec_in_cand', 'oneof_in_cand'):
         if f.get(k):
             return False, k
